@@ -155,9 +155,24 @@ def sigName : Sig → String
   | .failbit => "failbit"
   | .threw => "exception"
 
-/-- compare one implementation outcome with the model's on stream `s`; `what` labels the fault -/
-def judge (v : Verdict) (comp : String) (rd : Rd Obj) (sh : Shape) (s : Stream) (o : Out) (what : String) : Verdict :=
-  let m := rd s
+/-! tolerance margins: `isProbability` compares a double sum with 1 ± 1e-6; the model sums exactly.  When an object has a
+    row whose |sum − 1| is within 1e-9 of the tolerance the two may legitimately disagree: such an outcome is not judged. -/
+def nearTol (r : List Rat) : Bool :=
+  decide (absR (absR (sumQ r - 1) - AITB.Gen.equalToleranceSmall) < 1 / 1000000000)
+def illMat (m : Mat Rat) : Bool := m.any nearTol
+def illSp (rows : Nat) (m : SpMat Rat) : Bool :=
+  (List.range rows).any (fun i => nearTol (spRow m i) || nearTol ((spRow m i).map absR))
+def illObj (sh : Shape) : Obj → Bool
+  | .dmodel m => m.T.any illMat
+  | .smodel m => m.T.any (illSp sh.S)
+  | .mpol m => illMat m
+  | .pdd x => x.1.T.any illMat || x.2.any illMat
+  | .pss x => x.1.T.any (illSp sh.S) || x.2.any (illSp sh.S)
+  | .pds x => x.1.T.any (illSp sh.S) || x.2.any illMat
+  | .psd x => x.1.T.any illMat || x.2.any (illSp sh.S)
+  | _ => false
+
+def judgeCore (v : Verdict) (comp : String) (m : R Obj) (sh : Shape) (o : Out) (what : String) : Verdict :=
   match o, m with
   | .failed sig same, .bad msig =>
       let v := v.failIf (!same) s!"{comp} dest_modified_on_failed_load {what} signal={sigName sig}"
@@ -175,6 +190,13 @@ def judge (v : Verdict) (comp : String) (rd : Rd Obj) (sh : Shape) (s : Stream) 
       -- behaviour: the value the implementation ends up with is unspecified, no comparison
       let ub := viaDouble && comp == "MDP::SparseExperience" && what.endsWith "hugeidx2"
       v.diffIf (!ub && !(y == ym)) s!"{comp} loaded_object {what} model and impl load different objects"
+
+/-- compare one implementation outcome with the model's on stream `s`; `what` labels the fault -/
+def judge (v : Verdict) (comp : String) (rd : Rd Obj) (sh : Shape) (s : Stream) (o : Out) (what : String) : Verdict :=
+  let m := rd s
+  let ill := (match o with | .good _ y => illObj sh y | _ => false) || (match m with | .ok ym _ => illObj sh ym | _ => false)
+  if ill then { v with tag := if (v.tag.splitOn " ").contains "ill_conditioned" then v.tag else v.tag ++ " ill_conditioned" }
+  else judgeCore v comp m sh o what
 
 def isStrictPrefix {α} [BEq α] : List α → List α → Bool
   | [], _ :: _ => true
